@@ -42,7 +42,7 @@ pub fn reference_sample(case: &Case, kin: &oracle::kin::Kin, x: &[f64]) -> Resul
     let lvt = lft - lut;
     // G4: the implementation forms the tropical values before rescaling; below 1e-280 they are subnormal
     let lmin = rr.ln_x.iter().cloned().fold(f64::INFINITY, f64::min);
-    if lut < -640.0 || lmin < -640.0 || lvt < -640.0 || lvt > 640.0 {
+    if lut < -640.0 || lmin < -640.0 || lvt < -640.0 || lvt > 640.0 || lut + lvt < -640.0 {
         return Err("G4_underflow_before_rescaling");
     }
     let ln_s = -(d2 * lut + case.dod * lvt) / (d2 * case.nl as f64 + case.dod);
